@@ -86,6 +86,16 @@ CHECKS = {
         text="TLC checks the inversion theorems for every string up to the bound and prints the expected result of Unquote for every literal form (strconv.Quote output, single-quoted, back-quoted, arbitrary quoted bodies with invalid escapes); the harness parses each literal with Unquote on the text/scanner lexer and on a stateful lexer and compares value, error presence and error position. For the mapper pipeline TLC enumerates every stream up to the bound and every choice of three mapper selections, checks exactly-once, and the recorded calls of real Map functions (ParseString, ParseBytes, Lex) must equal the specified call log; Upper must upper-case exactly the selected types and leave positions untouched.",
         note="Alphabet has one representative per character class. Quoting.tla's Quote is self-checked against strconv.Quote.",
         ref="4/C18, 3.13"),
+    "C15": dict(
+        technique="TLA+ spec MC_Api (Meaning as the single value of every entry point; lexer state after ParseFromLexer) evaluated by TLC; all entry points and observational options exercised on real parsers over stateful, generated and mapped lexers and compared",
+        text="For every grammar/input/lookahead of the family TLC gives the one outcome every entry point must return and the state in which ParseFromLexer with trailing input allowed must leave the caller's lexer. The harness calls Parse(reader), ParseString, ParseBytes, ParseFromLexer over Parser.Lex's tokens, each with and without Trace, Parser.Lex and the definition's Lex/LexString/LexBytes, on parsers over the stateful core lexer, the compiled generated core lexer and with an Upper mapper: all ASTs and error texts of a case must be identical, token streams identical, the cursor equal to the specification's; a Parseable root type is driven token by token through ParseFromLexer.",
+        note="Verdict from equality among the real entry points and from the specification's cursor; disagreement between ParseString and Meaning is C01's (MODEL-DRIFT). Text/scanner lexer entry points are exercised by C04/C06/C18.",
+        ref="4/C15, 3.14"),
+    "C09": dict(
+        technique="TLA+ spec Concurrency (shared back-reference cache with separately enabled load/store steps) model-checked by TLC over all interleavings of 2-3 lexers and histories; every interleaving replayed into real lexers through gate hooks; sequential history-independence test; 16-goroutine stress under the Go race detector",
+        text="TLC checks ResultsSequential, CacheCoherent, KeyInjective and termination for every interleaving of cache loads and stores of 2 (thorough: 3) concurrent lexing calls after every earlier history, including groups containing the key separator; each completed interleaving is replayed by a scheduler that parks the real goroutines at the two gate hooks of lexer.BackrefRegex and releases them in the specified order, and every call's token stream must equal the same call on a fresh definition. A free-running stress (shared example parsers, back-reference definitions, generated definition, ebnf package parser, Parser.String) compares every result with its sequential reference under -race.",
+        note="Data-race freedom is a memory-model property outside TLA+: it is decided by the race detector on these runs. Only the back-reference cache is modelled as shared state.",
+        ref="4/C09, 3.15"),
     "C16": dict(
         technique="TLA+ spec StatefulLexer (Expand, Symbols, RoundTripStable invariant) checked by TLC; marshalled documents compared with the specification's serialised form; MC_StatefulLexer expectations replayed against definitions rebuilt from both JSON routes",
         text="TLC checks that include expansion is idempotent and the symbol table stable when expanded rules are fed back, and prints the serialised form and the expected streams; the harness compares json.Marshal(def) and json.Marshal(def.Rules()) with that form (order, byte-exact names and patterns, action kinds and targets), and replays all inputs up to the bound on lexer.New(unmarshal(...)) for both routes, comparing streams and symbol tables with the original.",
@@ -143,7 +153,7 @@ def main():
         print("MANIFEST.json written (jsonschema not available for validation)")
 
 
-HOOK_COMMITS = []
+HOOK_COMMITS = ["5734b20"]
 
 if __name__ == "__main__":
     main()
